@@ -1917,10 +1917,18 @@ fn kamino_driver(out: &str, seed: u64, n: u64) {
             let supply: u64 = (((avail as f64) + (borrowed as f64)) / rate) as u64;
             let price: i64 = *pick(&mut rng, &[1_000_000i64, 150_000_000, 3_456, 99_999_999]);
             extra.push(json!({"op":"add_mint","mint":format!("MK{}", i),"decimals":dec,"kind":kind}));
-            extra.push(json!({"op":"set_oracle","oracle":format!("OK{}", i),"kind":"pyth","price":price,"conf":(price as f64 * *pick(&mut rng, &[0.0f64, 0.001, 0.02])) as i64,"expo":-6}));
+            // (a quarter of the scenarios price the venue banks through the Switchboard variant of the setup)
+            let swb = k % 4 == 1;
+            let confr = *pick(&mut rng, &[0.0f64, 0.001, 0.02]);
+            if swb {
+                let v: i128 = (price as i128) * 1_000_000_000_000i128;
+                extra.push(json!({"op":"set_oracle","oracle":format!("OK{}", i),"kind":"swb","swb_value":v.to_string(),"swb_std":(((v as f64) * confr) as i128).to_string()}));
+            } else {
+                extra.push(json!({"op":"set_oracle","oracle":format!("OK{}", i),"kind":"pyth","price":price,"conf":(price as f64 * confr) as i64,"expo":-6}));
+            }
             extra.push(json!({"op":"add_kamino_reserve","reserve":format!("KR{}", i),"mint":format!("MK{}", i),"market":"KM1","avail":avail.to_string(),"supply":supply.max(1).to_string(),"borrowed":borrowed.to_string()}));
             let (awi, awm) = *pick(&mut rng, &[("0.8", "0.9"), ("0.5", "0.65"), ("0.95", "0.97"), ("1", "1")]);
-            extra.push(json!({"op":"add_bank_kamino","group":"G1","bank":format!("KB{}", i),"reserve":format!("KR{}", i),"oracle":format!("OK{}", i),"setup":6,"seed":0,
+            extra.push(json!({"op":"add_bank_kamino","group":"G1","bank":format!("KB{}", i),"reserve":format!("KR{}", i),"oracle":format!("OK{}", i),"setup":if swb { 7 } else { 6 },"seed":0,
                               "cfg":{"aw_init":awi,"aw_maint":awm,"oracle_max_age":60}}));
             extra.push(json!({"op":"fund","user":"payer","mint":format!("MK{}", i),"amount":"1000000"}));
             extra.push(json!({"op":"kamino_init_obligation","bank":format!("KB{}", i),"amount":*pick(&mut rng, &[10u64, 100, 999])}));
@@ -2110,10 +2118,18 @@ fn solend_driver(out: &str, seed: u64, n: u64) {
             let supply: u64 = (((avail as f64) + (borrowed as f64)) / rate) as u64;
             let price: i64 = *pick(&mut rng, &[1_000_000i64, 150_000_000, 3_456, 99_999_999]);
             extra.push(json!({"op":"add_mint","mint":format!("MS{}", i),"decimals":dec,"kind":kind}));
-            extra.push(json!({"op":"set_oracle","oracle":format!("OS{}", i),"kind":"pyth","price":price,"conf":(price as f64 * *pick(&mut rng, &[0.0f64, 0.001, 0.02])) as i64,"expo":-6}));
+            // (a quarter of the scenarios price the venue banks through the Switchboard variant of the setup)
+            let swb = k % 4 == 1;
+            let confr = *pick(&mut rng, &[0.0f64, 0.001, 0.02]);
+            if swb {
+                let v: i128 = (price as i128) * 1_000_000_000_000i128;
+                extra.push(json!({"op":"set_oracle","oracle":format!("OS{}", i),"kind":"swb","swb_value":v.to_string(),"swb_std":(((v as f64) * confr) as i128).to_string()}));
+            } else {
+                extra.push(json!({"op":"set_oracle","oracle":format!("OS{}", i),"kind":"pyth","price":price,"conf":(price as f64 * confr) as i64,"expo":-6}));
+            }
             extra.push(json!({"op":"add_solend_reserve","reserve":format!("SR{}", i),"mint":format!("MS{}", i),"market":"SM1","avail":avail.to_string(),"supply":supply.max(1).to_string(),"borrowed_wads":((borrowed as u128) * 1_000_000_000_000_000_000u128 + *pick(&mut rng, &[0u128, 1, 999_999_999_999_999_999])).to_string()}));
             let (awi, awm) = *pick(&mut rng, &[("0.8", "0.9"), ("0.5", "0.65"), ("0.95", "0.97"), ("1", "1")]);
-            extra.push(json!({"op":"add_bank_solend","group":"G1","bank":format!("SB{}", i),"reserve":format!("SR{}", i),"oracle":format!("OS{}", i),"setup":11,"seed":0,
+            extra.push(json!({"op":"add_bank_solend","group":"G1","bank":format!("SB{}", i),"reserve":format!("SR{}", i),"oracle":format!("OS{}", i),"setup":if swb { 12 } else { 11 },"seed":0,
                               "cfg":{"aw_init":awi,"aw_maint":awm,"oracle_max_age":60}}));
             extra.push(json!({"op":"fund","user":"payer","mint":format!("MS{}", i),"amount":"1000000"}));
             extra.push(json!({"op":"solend_init_obligation","bank":format!("SB{}", i),"amount":*pick(&mut rng, &[10u64, 100, 999])}));
@@ -2299,10 +2315,17 @@ fn drift_driver(out: &str, seed: u64, n: u64) {
             let cum: u128 = *pick(&mut rng, &[10_000_000_000u128, 11_000_000_000, 10_000_000_001, 27_182_818_284, 10_345_678_901]);
             let price: i64 = *pick(&mut rng, &[1_000_000i64, 150_000_000, 3_456, 99_999_999]);
             extra.push(json!({"op":"add_mint","mint":format!("MR{}", i),"decimals":dec,"kind":*pick(&mut rng, &["spl", "spl", "t22"])}));
-            extra.push(json!({"op":"set_oracle","oracle":format!("OR{}", i),"kind":"pyth","price":price,"conf":(price as f64 * *pick(&mut rng, &[0.0f64, 0.001, 0.02])) as i64,"expo":-6}));
+            let swb = k % 4 == 1;
+            let confr = *pick(&mut rng, &[0.0f64, 0.001, 0.02]);
+            if swb {
+                let v: i128 = (price as i128) * 1_000_000_000_000i128;
+                extra.push(json!({"op":"set_oracle","oracle":format!("OR{}", i),"kind":"swb","swb_value":v.to_string(),"swb_std":(((v as f64) * confr) as i128).to_string()}));
+            } else {
+                extra.push(json!({"op":"set_oracle","oracle":format!("OR{}", i),"kind":"pyth","price":price,"conf":(price as f64 * confr) as i64,"expo":-6}));
+            }
             extra.push(json!({"op":"add_drift_market","market":format!("DM{}", i),"mint":format!("MR{}", i),"index":i,"cum":cum.to_string()}));
             let (awi, awm) = *pick(&mut rng, &[("0.8", "0.9"), ("0.5", "0.65"), ("0.95", "0.97"), ("1", "1")]);
-            extra.push(json!({"op":"add_bank_drift","group":"G1","bank":format!("DB{}", i),"market":format!("DM{}", i),"oracle":format!("OR{}", i),"setup":9,"seed":0,
+            extra.push(json!({"op":"add_bank_drift","group":"G1","bank":format!("DB{}", i),"market":format!("DM{}", i),"oracle":format!("OR{}", i),"setup":if swb { 10 } else { 9 },"seed":0,
                               "cfg":{"aw_init":awi,"aw_maint":awm,"oracle_max_age":60}}));
             extra.push(json!({"op":"fund","user":"payer","mint":format!("MR{}", i),"amount":"1000000"}));
             extra.push(json!({"op":"drift_init_user","bank":format!("DB{}", i),"amount":*pick(&mut rng, &[10u64, 100, 999])}));
